@@ -236,7 +236,7 @@ ELEMENT_SET_NO       = {tle.tle.element_nb}
 REV_AT_EPOCH         = {tle.tle.revolutions}
 BSTAR                = {bstar:6.9f} [1/ER]
 MEAN_MOTION_DOT      = {ndot: 10.8f} [rev/day**2]
-MEAN_MOTION_DDOT     = {ndotdot:0.1f} [rev/day**3]
+MEAN_MOTION_DDOT     = {ndotdot!r} [rev/day**3]
 """.format(
         n=code_unit(data, "n", "rev/day"),
         i=code_unit(data, "i", "deg"),
@@ -320,7 +320,7 @@ def _dumps_xml(data, **kwargs):
         ndot.text = f"{data.ndot / 2:.8f}"
 
         ndotdot = ET.SubElement(tle_params, "MEAN_MOTION_DDOT")
-        ndotdot.text = f"{data.ndotdot / 6:.1f}"
+        ndotdot.text = f"{data.ndotdot / 6!r}"
 
     if data.cov is not None:
         cov = ET.SubElement(data_tag, "covarianceMatrix")
